@@ -1,23 +1,30 @@
 (* C02/Model.v — executable model of the quorum selection of the concatenation clerk.  Definitions only.
-   Source (mithril-stm/src/proof_system/concatenation):
+   Source (mithril-stm/src/proof_system/concatenation), as of fix commits 7025ae76f and cf2d616cd:
      clerk.rs   ConcatenationClerk::select_valid_signatures_for_k_indices   -> pass1 / pass2 / select
-     proof.rs   ConcatenationProof::aggregate_signatures (registration lookup by signer_index, `?`;
-                selection; sort)                                           -> aggregate
-   A single signature as the clerk sees it:
-     key    the class of the code's Eq / Hash on SingleSignatureWithRegisteredParty: sigma bytes and
-            registration entry (vk, stake) — NOT the index list, NOT the signer_index;
-     rank   position of sigma in the byte order used by `<` (compare_signatures);
-     idxs   the lottery indices it carries;   slot  its signer_index;
+     proof.rs   ConcatenationProof::aggregate_signatures (registration lookup by signer_index, an
+                unregistered index is skipped; selection; sort)             -> aggregate / run
+   A single signature as the clerk sees it (SingleSignatureWithRegisteredParty):
+     sg     sigma, as its position in the byte order used by `<` (BlsSignature::compare_signatures);
+            equal numbers = equal bytes;
+     ent    the registration entry (vk, stake) it is paired with;
+     (sg, ent) is exactly what the code's Eq / Hash on SingleSignatureWithRegisteredParty look at
+            (NOT the index list, NOT the signer_index): [key];
+     idxs   the lottery indices it carries (a Vec: order and repetitions are possible);
+     slot   its signer_index;
      sok    S-ideal: sigma is the valid signature of the entry's key on msg||root;
      lost   the carried indices for which the lottery (RO + C08, real decision supplied per case) is lost.
    SingleSignatureForConcatenation::verify = sok && every index < m and won  (C01.Model.check_indices).
-   The BTreeMap is an association list with shadowing insert, iterated in ascending key order;
-   the HashMap of removal lists is a list of (key, index) pairs (only membership is ever asked);
-   the HashSet of results is a list, observed as a sorted set. *)
+   The BTreeMap sig_by_index is an association list with shadowing insert, iterated in ascending key
+   order ([domain]); the HashMap owned_indices_by_sig is the function [owned]; the HashSet of results is
+   a list, observed as a sorted set. *)
 From MV Require Export Base.Prelude.
+From MV Require Import Base.SortUnique.
 Open Scope N_scope.
 
-Record sr := { key : N; rank : N; idxs : list N; slot : N; sok : bool; lost : list N }.
+Record sr := { sg : N; ent : N; idxs : list N; slot : N; sok : bool; lost : list N }.
+
+Definition key (s : sr) : N * N := (sg s, ent s).
+Definition key_eqb (a b : sr) : bool := (sg a =? sg b) && (ent a =? ent b).
 
 Definition memN (x : N) (l : list N) : bool := existsb (N.eqb x) l.
 
@@ -30,65 +37,62 @@ Fixpoint lookup (mp : bymap) (i : N) : option sr :=
   match mp with [] => None | (j, s) :: r => if j =? i then Some s else lookup r i end.
 Definition update (mp : bymap) (i : N) (s : sr) : bymap := (i, s) :: mp.
 
-Definition memp (k i : N) (l : list (N * N)) : bool := existsb (fun p => (fst p =? k) && (snd p =? i)) l.
-
-(* body of the first loop for one (signature, index) pair; after fix: a signature whose key equals the
-   current owner's leaves both maps untouched *)
-Definition step1 (st : bymap * list (N * N)) (s : sr) (i : N) : bymap * list (N * N) :=
-  let '(mp, rem) := st in
+(* body of the first loop for one (signature, index) pair: the index goes to the smaller sigma *)
+Definition step1 (mp : bymap) (s : sr) (i : N) : bymap :=
   match lookup mp i with
-  | Some prev =>
-      if key prev =? key s then (mp, rem)
-      else if rank s <? rank prev then (update mp i s, (key prev, i) :: rem)
-      else (mp, (key s, i) :: rem)
-  | None => (update mp i s, rem)
+  | Some prev => if sg s <? sg prev then update mp i s else mp
+  | None => update mp i s
   end.
-Definition step_sig (st : bymap * list (N * N)) (s : sr) := fold_left (fun st i => step1 st s i) (idxs s) st.
-Definition pass1 (l : list sr) := fold_left step_sig l ([], []).
+Definition step_sig (mp : bymap) (s : sr) : bymap := fold_left (fun mp i => step1 mp s i) (idxs s) mp.
+Definition pass1 (l : list sr) : bymap := fold_left step_sig l [].
 
-(* indices a signature keeps: its own list minus its removal list *)
-Definition assigned (rem : list (N * N)) (s : sr) : list N := filter (fun i => negb (memp (key s) i rem)) (idxs s).
-Definition with_idxs (s : sr) (ix : list N) : sr :=
-  {| key := key s; rank := rank s; idxs := ix; slot := slot s; sok := sok s; lost := lost s |}.
-
-(* sig_by_index.values(): owners in ascending index order *)
-Fixpoint insert_sorted (x : N) (l : list N) : list N :=
-  match l with [] => [x] | y :: r => if x <=? y then x :: l else y :: insert_sorted x r end.
-Definition sortN (l : list N) : list N := fold_right insert_sorted [] l.
+(* sig_by_index.keys(): ascending *)
+Definition sortN (l : list N) : list N := isort N.leb l.
 Definition domain (mp : bymap) : list N := sortN (nodup N.eq_dec (map fst mp)).
-Definition owners (mp : bymap) : list sr :=
-  flat_map (fun i => match lookup mp i with Some s => [s] | None => [] end) (domain mp).
 
-(* second loop: None = Err(NotEnoughSignatures) *)
-Fixpoint pass2 (k : N) (rem : list (N * N)) (os : list sr) (seen : list N) (acc : list sr) (count : N)
-  : option (list sr) :=
-  match os with
+(* owned_indices_by_sig[s]: the indices whose owner equals s (Eq of the code), ascending *)
+Definition owns (mp : bymap) (s : sr) (i : N) : bool :=
+  match lookup mp i with Some o => key_eqb o s | None => false end.
+Definition owned (mp : bymap) (D : list N) (s : sr) : list N := filter (owns mp s) D.
+
+Definition with_idxs (s : sr) (ix : list N) : sr :=
+  {| sg := sg s; ent := ent s; idxs := ix; slot := slot s; sok := sok s; lost := lost s |}.
+
+(* second loop over sig_by_index.values(); None = Err(NotEnoughSignatures) *)
+Fixpoint pass2 (k : N) (mp : bymap) (D dom : list N) (seen acc : list sr) (count : N) : option (list sr) :=
+  match dom with
   | [] => None
-  | s :: r =>
-      if memN (key s) seen then pass2 k rem r seen acc count
-      else
-        let a := assigned rem s in
-        let count' := count + N.of_nat (length a) in
-        let acc' := with_idxs s a :: acc in
-        if k <=? count' then Some acc' else pass2 k rem r (key s :: seen) acc' count'
+  | i :: r =>
+      match lookup mp i with
+      | None => pass2 k mp D r seen acc count
+      | Some s =>
+          if existsb (key_eqb s) seen then pass2 k mp D r seen acc count
+          else
+            let a := owned mp D s in
+            let count' := count + N.of_nat (length a) in
+            let acc' := with_idxs s a :: acc in
+            if k <=? count' then Some acc' else pass2 k mp D r (s :: seen) acc' count'
+      end
   end.
 
 Definition select (m k : N) (l : list sr) : option (list sr) :=
-  let '(mp, rem) := pass1 (filter (valid m) l) in
-  pass2 k rem (owners mp) [] [] 0.
+  let mp := pass1 (filter (valid m) l) in
+  let D := domain mp in
+  pass2 k mp D D [] [] 0.
 
-(* aggregate_signatures: every signer_index must be a registered index (`collect::<Result<..>>()?`),
-   whatever else the signature is; n = number of registered parties.
-   outcome 0 = Ok, 1 = NotEnoughSignatures, 3 = other error *)
+(* aggregate_signatures: a signature whose signer_index is not a registered index is skipped
+   (n = number of registered parties); then the selection. *)
+Definition aggregate (n m k : N) (l : list sr) : option (list sr) :=
+  select m k (filter (fun s => slot s <? n) l).
+
 Definition pairs_of (res : list sr) : list N :=
   sortN (flat_map (fun s => map (fun i => slot s * 4294967296 + i) (idxs s)) res).
 Definition all_res_idx (res : list sr) : list N := flat_map idxs res.
 
-(* observation: outcome, sorted set of (slot, index) pairs, and whether the result meets the
-   verifier's count and uniqueness tests (C01 (i), (ii)) *)
+(* observation: outcome (0 = Ok, 1 = NotEnoughSignatures), sorted (slot, index) pairs, and whether the
+   result meets the verifier's count and uniqueness tests (C01 (i), (ii)) *)
 Definition run (n m k : N) (l : list sr) : obs :=
-  if existsb (fun s => n <=? slot s) l then OL [OZ 3] else
-  match select m k l with
+  match aggregate n m k l with
   | None => OL [OZ 1]
   | Some res =>
       let ix := all_res_idx res in
